@@ -85,6 +85,10 @@ def rule_track(chk, rid, runs, what="tracking"):
                                    rel=run_.rel, node=rec.node)
             else:
                 for c, v in pend.items():
+                    if "X" in v and rec.kind not in ("Move", "Copy"):
+                        chk.decide(rid, cons + f"/dropped({c})", False if v == {"X"} else None,
+                                   f"an element was removed from {c} but {rec.yid} is not a Move: the checkpoint is no longer "
+                                   "tracked although it is still stored" + cfgs(run_), rel=run_.rel, node=rec.node)
                     if "W" in v:
                         chk.decide(rid, cons + f"/owed({c})", False if v == {"W"} else None,
                                    f"{rec.yid} is reached although the checkpoint written by the previous Forward was never "
@@ -183,6 +187,12 @@ def conv_track(chk, rid, run_):
             for c, v in trk.items():
                 chk.decide(rid, cons + f"/keep({c})", True if v == {"0"} else (False if v == {"X"} else None),
                            f"Copy: tracking state {sorted(v)}", rel=run_.rel, node=rec.node)
+        if rec.kind not in ("Move", "Copy"):
+            for c, v in trk.items():
+                if "X" in v:
+                    chk.decide(rid, cons + f"/dropped({c})", False if v == {"X"} else None,
+                               f"an element was removed from {c} but {rec.yid} is not a Move: the checkpoint is no longer "
+                               "tracked although it is still stored (the leftover guard cannot see it)", rel=run_.rel, node=rec.node)
 
 
 def rule_load(chk, rid, runs):
